@@ -1,5 +1,6 @@
 import Pyxv.Proofs.ItextLemmas
 import Pyxv.Proofs.ItextIds
+import Pyxv.Proofs.ItextValues
 /-!
 # C07 — every itext reference resolves in every language
 
@@ -349,6 +350,27 @@ example : choiceId "a-1".toList 0 ≠ choiceId "a".toList 10 ∧
     have := (path_inj (by decide) (by decide) h).2
     exact absurd this (by decide)
 
+/-! ### value level (lemmas in `Proofs/ItextValues.lean`) -/
+
+/-- **A text written for a language is what that language's translation holds**: the last leaf assignment
+`_translations[lang][id][form] = text` made by `_setup_translations` / `_setup_media` is the value in the
+final table — later assignments to other keys do not disturb it and `_add_empty_translations` never
+overwrites it. -/
+theorem value_written (x : Survey) {pre post : List Ent} {e : Ent} (h : ents x = pre ++ e :: post)
+    (hlast : ∀ e' ∈ post, ¬ sameKey e e') :
+    valueAt (table x) e.lang e.path e.form = some e.text := by
+  have : table x = pad x.lists (setup (ents x)) := rfl
+  rw [this, h]
+  exact valueAt_pad _ _ _ _ _ _ (valueAt_setup_last pre post e hlast)
+
+/-- **No language ever shows a text written for something else**: every value in the final table is
+either the padding `-` or the text of a leaf assignment made for exactly this language, this id and this
+content type. -/
+theorem value_sound (x : Survey) :
+    ∀ lps ∈ table x, ∀ pf ∈ lps.2, ∀ ft ∈ pf.2,
+      ft.2 = dashStr ∨ (⟨lps.1, pf.1, ft.1, ft.2⟩ : Ent) ∈ ents x :=
+  sound_pad x.lists (sound_setup (ents x))
+
 /-! ### non-vacuity, the F6 witness, and facts about the regenerated tables -/
 
 def q (cls : Cls) (name : String) (label hint guidance : Txt) : ElemD :=
@@ -385,6 +407,15 @@ example :
 example : (out (ex1 (tr [("en", "B")]))).itemIds.length = 2 ∧
     ((ex1 (tr [("en", "B")])).lists.map (·.name)).Nodup := by
   refine ⟨by decide +kernel, by decide +kernel⟩
+
+/-- non-vacuity of the value-level statements: the French constraint message is shown in French, English is
+padded with `-`, the Spanish image is filed under `image` -/
+example :
+    let T := table (ex1 (tr [("en", "B")]))
+    valueAt T "fr".toList "/data/a:jr:constraintMsg".toList "long".toList = some "m".toList ∧
+    valueAt T "en".toList "/data/a:jr:constraintMsg".toList "long".toList = some dashStr ∧
+    valueAt T "es".toList "/data/a:label".toList "image".toList = some "a.png".toList ∧
+    valueAt T "default".toList "/data/a:hint".toList "guidance".toList = some dashStr := by decide +kernel
 
 /-- **F6 repaired**: the same survey with the second choice unlabeled (the former witness of the
 defect) now satisfies the property: `c-1` is padded into every translation. -/
